@@ -338,15 +338,16 @@ pub fn oracle(case: &Value, seen: &Seen, w: &WorldObs) -> Result<&'static str, (
             return v("pipe-model", format!("fd{s}: delivered bytes are not a prefix of written bytes"));
         }
     }
-    // rule 7: whatever the outcome, the child is gone and reaped
-    if p.exit.is_none() {
-        return v("child-left-running", format!("run() returned ({}) while the child was still running", seen.raw));
-    }
-    if !p.reaped {
-        return v("child-not-reaped", format!("run() returned ({}) without reaping the child", seen.raw));
+    // rule 7: whatever the outcome, the child is not left running: it has exited, or the kill has been
+    // delivered (a killed child ends at its next step; the statement does not ask that the zombie be
+    // reaped, so an unreaped child is only counted, see execute)
+    if p.exit.is_none() && !p.killed {
+        return v("child-left-running", format!("run() returned ({}) while the child was still running and had not been killed", seen.raw));
     }
     if seen.ok {
-        let code = p.exit.unwrap();
+        let Some(code) = p.exit else {
+            return v("killed-but-ok", "the runner killed a live child and still returned a result".into());
+        };
         if seen.code != code {
             return v("wrong-exit-code", format!("exit code {:?}, child ended with {:?}", seen.code, code));
         }
@@ -695,6 +696,7 @@ impl Engine for C16 {
                     (case["out_pol"] == 2 && !p.written[1].is_empty()) || (case["err_pol"] == 2 && !p.written[2].is_empty())
                 });
                 res.nontrivial = wrote_captured || class != "complete";
+                res.count("probe_child_not_reaped_at_return", u64::from(w.procs.first().is_some_and(|p| !p.reaped)));
                 // probes for the races the property is about
                 if let Some(p) = p {
                     let cap = case["cap"].as_u64().unwrap() as usize;
